@@ -615,15 +615,47 @@ theorem prepareOnAll_all_failed (e : Nat) (rest : List (Except Nat String))
       · exact h r hr)
   simp [prepareOnAll, this]
 
-/-- `Session::prepare`: the second attempt (a connection per shard) runs iff the first (a connection per node) did
-not yield a statement - also after an id mismatch -, and its verdict is final -/
+/-- `Session::prepare`: with working connections, the second attempt (a connection per shard) runs iff the first (a
+connection per node) did not yield a statement - also after an id mismatch -, and its verdict is final; without a
+working connection the pool error is returned at once and nothing is sent (session.rs:1630 `?`). -/
 theorem prepareNongeneric_spec (perNode perShard : List (Except Nat String)) :
-    (∀ id, prepareOnAll perNode = .ok id → prepareNongeneric perNode perShard = .ok id) ∧
-    (∀ e, prepareOnAll perNode = .error e → prepareNongeneric perNode perShard = prepareOnAll perShard) := by
-  constructor <;> intro x h <;> simp [prepareNongeneric, h]
+    (perNode = [] → prepareNongeneric perNode perShard = .error .noConnections) ∧
+    (∀ id, perNode ≠ [] → prepareOnAll perNode = .ok id → prepareNongeneric perNode perShard = .ok id) ∧
+    (∀ e, perNode ≠ [] → perShard ≠ [] → prepareOnAll perNode = .error e →
+      prepareNongeneric perNode perShard = prepareOnAll perShard) ∧
+    (∀ e, perNode ≠ [] → perShard = [] → prepareOnAll perNode = .error e →
+      prepareNongeneric perNode perShard = .error .noConnections) := by
+  refine ⟨fun h => by simp [prepareNongeneric, h], fun id hne h => ?_, fun e hne hs h => ?_, fun e hne hs h => ?_⟩
+  · cases perNode with
+    | nil => exact absurd rfl hne
+    | cons a l => simp [prepareNongeneric, h]
+  · cases perNode with
+    | nil => exact absurd rfl hne
+    | cons a l =>
+      cases perShard with
+      | nil => exact absurd rfl hs
+      | cons b m => simp [prepareNongeneric, h]
+  · cases perNode with
+    | nil => exact absurd rfl hne
+    | cons a l => simp [prepareNongeneric, h, hs]
+
+/-- partial failure: nodes that refuse are skipped (`find_or_first(is_ok)`), the statement comes from the first node
+that succeeds - as long as all succeeding nodes agree on the id -/
+theorem prepareOnAll_skips_failures (pre : List (Except Nat String)) (id : String) (post : List (Except Nat String))
+    (hpre : ∀ r ∈ pre, ∃ e, r = .error e) (hpost : ∀ id', .ok id' ∈ post → id' = id) :
+    prepareOnAll (pre ++ .ok id :: post) = .ok id := by
+  rw [prepareOnAll_ok_iff]
+  refine ⟨by simp, fun id' h => ?_⟩
+  simp only [List.mem_append, List.mem_cons] at h
+  rcases h with h | h | h
+  · obtain ⟨e, he⟩ := hpre _ h; cases he
+  · cases h; rfl
+  · exact hpost id' h
 
 example : prepareOnAll [.error 1, .ok "x", .error 2, .ok "x"] = .ok "x" := by rfl
 example : prepareOnAll [.ok "x", .ok "y"] = .error .idsMismatch := by rfl
 example : prepareNongeneric [.error 7, .error 8] [.error 9, .ok "z", .ok "z"] = .ok "z" := by rfl
+example : prepareNongeneric [] [.ok "z"] = .error .noConnections := by rfl
+example : prepareOnAll [.error 8704, .ok "x", .error 8192] = .ok "x" := by rfl
 
 end ScyllaVerif.Props.C14Session
